@@ -842,4 +842,62 @@ example : ∃ s, run empty [.ins 44 47 45, .ins 47 44 45] = some s ∧ ¬ Acycli
   have h2 := h 47 44 (by decide)
   omega
 
+/-! ### The remaining public entry points: `insert` with a direction, `find_references_by_direction`,
+`get_type_id` -/
+
+/-- `References::insert` of one entry: a forward entry adds source → node, an inverse entry
+node → source -/
+theorem R_insertMany_one {s s' : Refs} {src node t : Nat} {inverse : Bool}
+    (h : insertMany s src [(node, t, inverse)] = some s') (x u y : Nat) :
+    R s' x u y ↔ (R s x u y ∨
+      (if inverse = true then x = node ∧ u = t ∧ y = src else x = src ∧ u = t ∧ y = node)) := by
+  unfold insertMany at h
+  cases inverse with
+  | true =>
+    simp only [if_true] at h ⊢
+    cases hi : insertRef s node src t with
+    | none => rw [hi] at h; cases h
+    | some s1 => rw [hi] at h; simp only [insertMany, Option.some.injEq] at h; subst h; exact R_insertRef hi x u y
+  | false =>
+    simp only [Bool.false_eq_true, if_false] at h ⊢
+    cases hi : insertRef s src node t with
+    | none => rw [hi] at h; cases h
+    | some s1 => rw [hi] at h; simp only [insertMany, Option.some.injEq] at h; subst h; exact R_insertRef hi x u y
+
+/-- `get_type_id` answers with a HasTypeDefinition target of the node, and with `None` exactly when
+the node has no such reference -/
+theorem getTypeId_spec (s : Refs) (n : Nat) :
+    (∀ t, getTypeId s n = some t → R s n typeDefRef t) ∧
+    (getTypeId s n = none ↔ ∀ t, ¬ R s n typeDefRef t) := by
+  unfold getTypeId R fwdL
+  cases s.fwd.get n with
+  | none => simp
+  | some l =>
+    simp only [Option.getD_some]
+    constructor
+    · intro t h
+      rw [Option.map_eq_some_iff] at h
+      obtain ⟨⟨u, y⟩, hf, rfl⟩ := h
+      have hm := List.mem_of_find?_eq_some hf
+      have hp := List.find?_some hf
+      simp at hp; subst hp; exact hm
+    · rw [Option.map_eq_none_iff, List.find?_eq_none]
+      constructor
+      · intro h t hm; have := h (typeDefRef, t) hm; simp at this
+      · intro h x hx
+        obtain ⟨u, y⟩ := x
+        simp only [beq_iff_eq]
+        intro hu; subst hu; exact h y hx
+
+/-- `find_references_by_direction(Both)`, unfiltered: the part before the returned index is exactly
+the node's references, the part from it on exactly the references that point at the node -/
+theorem findByDirection_both (s : Refs) (fuel n : Nat) (hi : Inv s) :
+    ∃ l idx, findByDirection s fuel n .both none = some (l, idx) ∧
+      (∀ t b, (t, b) ∈ l.take idx ↔ R s n t b) ∧ (∀ t a, (t, a) ∈ l.drop idx ↔ R s a t n) := by
+  obtain ⟨r1, h1, m1⟩ := findRefs_none s fuel n
+  obtain ⟨r2, h2, m2⟩ := findInv_none s fuel n hi
+  refine ⟨r1.getD [] ++ r2.getD [], (r1.getD []).length, by simp [findByDirection, h1, h2], ?_, ?_⟩
+  · intro t b; rw [List.take_left']; exact m1 t b; rfl
+  · intro t a; rw [List.drop_left']; exact m2 t a; rfl
+
 end OpcuaVerif.C28
